@@ -539,6 +539,11 @@ class TLSConnection(TLSRecordLayer):
         serverHello = result
         cipherSuite = serverHello.cipher_suite
 
+        # the server sends a NewSessionTicket message if and only if its
+        # hello included the session_ticket extension (RFC 5077, section 3.3)
+        self._expect_new_session_ticket = \
+            serverHello.getExtension(ExtensionType.session_ticket) is not None
+
         # Check the serverHello.random  if it includes the downgrade protection
         # values as described in RFC8446 section 4.1.3
 
@@ -4949,10 +4954,11 @@ class TLSConnection(TLSRecordLayer):
         expect_ccs_message = True
         # If we use SessionTicket resumption on client side, there are multiple
         # situations where the server has the option to send new ticket
-        # (only the server sends tickets, a server must not accept one)
-        if self._client:
-            expected_types = (ContentType.handshake,
-                              ContentType.change_cipher_spec)
+        # (only the server sends tickets and only if it announced it in its
+        # hello message)
+        if self._client and getattr(self, "_expect_new_session_ticket",
+                                    True):
+            expected_types = ContentType.handshake
         else:
             expected_types = ContentType.change_cipher_spec
         for result in self._getMsg(
